@@ -253,6 +253,10 @@ class ClassEval:
                 return getattr(mv.m, fn.attr)(*[ev(a) for a in node.args])
         if isinstance(fn, ast.Attribute) and isinstance(fn.value, ast.Name) and fn.value.id == "self" and fn.attr in self.method_models:
             return self.method_models[fn.attr](*[ev(a) for a in node.args])
+        # a callable stored on the object (`self.decode = codec_info.decode` in the constructor): the model's callable
+        if isinstance(fn, ast.Attribute) and isinstance(fn.value, ast.Name) and fn.value.id == "self" and callable(self.attrs.get(fn.attr)) and \
+                not isinstance(self.attrs.get(fn.attr), Record) and (self.cls is None or self.cls.find_method(fn.attr) is None) and not node.keywords:
+            return self.attrs[fn.attr](*[ev(a) for a in node.args])
         if isinstance(fn, ast.Name) and fn.id in self.function_models and (local is None or fn.id not in local):
             return self.function_models[fn.id](*[ev(a) for a in node.args])
         if isinstance(fn, ast.Attribute) and isinstance(fn.value, ast.Name) and fn.value.id == "self" and self.cls is not None and \
@@ -342,6 +346,15 @@ class ClassEval:
                 except NotConstant as e:
                     raise AnalysisError("store `%s` is not interpreted (%s)" % (norm(st)[:80], e))
                 return False
+            # a store into an attribute of a model object reached through an expression (`self.tree.formPointer = None`)
+            if isinstance(t, ast.Attribute) and not isinstance(t.value, ast.Name):
+                try:
+                    holder = interp.eval_expr(t.value, env)
+                    if isinstance(holder, Record):
+                        setattr(holder, t.attr, self._value(interp.eval_expr(st.value, env)))
+                        return False
+                except NotConstant as e:
+                    raise AnalysisError("store `%s` is not interpreted (%s)" % (norm(st)[:80], e))
         # a store into a concrete container reached through an expression (`self.currentToken["data"][-1][1] += output`)
         if isinstance(st, (ast.Assign, ast.AugAssign)):
             tg = st.targets[0] if isinstance(st, ast.Assign) and len(st.targets) == 1 else getattr(st, "target", None)
